@@ -202,11 +202,15 @@ def r1_cursors(prog, res):
     res.floor("R1c.cursor_bound", "global cursor increments", n, 5)
 
 
-def r2_escape_then_free(prog, res):
-    """free(p) while a location with a longer lifetime, assigned from p in this function, still holds p"""
-    n = 0
+def r2_escape_then_free(prog, res, f_floor=False):
+    """free(p) while a location with a longer lifetime still holds p: assigned from p in this function, or by a callee that keeps
+    its argument (handover.stores: least fixed point over the call graph), on a path that leads to the free"""
+    n = nfree = 0
     counters = {}
     STORE_FNS = {"TYPEput_clientData": 1, "LISTadd_last": 1, "LISTadd_first": 1, "DICTdefine": 2}
+    import handover
+    st = handover.stores(prog)
+    kept = {}
     for f in prog.all_functions():
         if f.component == "test" or f.cfg is None:
             continue
@@ -215,6 +219,7 @@ def r2_escape_then_free(prog, res):
             p = strip(fr["ch"][0])
             if p is None or p["k"] != "Ref" or p.get("dk") not in ("local", "param"):
                 continue
+            nfree += 1
             escapes = []
             for x in f.walk():
                 if x["k"] == "Assign":
@@ -233,10 +238,19 @@ def r2_escape_then_free(prog, res):
                             s = strip(s["ch"][0])
                         if s is not None and s["k"] == "Ref" and s.get("d") == p["d"]:
                             escapes.append((x, "%s(..)" % x["fn"]))
+                elif x["k"] == "Call" and x.get("fn") not in ("free", "sc_free"):
+                    # a callee that keeps its argument (least fixed point over the call graph: the parameter is assigned to a member,
+                    # an array element or a global, or passed on to a parameter that is)
+                    why = handover.handover_of(prog, st, x, p["d"])
+                    if why:
+                        escapes.append((x, "%s(..)" % x["fn"]))
+                        kept[x["i"]] = why
+            cfg = f.cfg
+            # only a store that can be followed by this free on some path (a free in an arm that returns before the store is none)
+            escapes = [(e, w_) for e, w_ in escapes if cfg.reaches(cfg.locate(e), cfg.locate(fr))]
             if not escapes:
                 continue
             n += 1
-            cfg = f.cfg
             bad = None
             for e, where in escapes:
                 if not cfg.dominates(cfg.locate(e), cfg.locate(fr)) and cfg.locate(e) is not None:
@@ -261,8 +275,14 @@ def r2_escape_then_free(prog, res):
             key = base if c0 == 0 else "%s#%d" % (base, c0)
             res.add("R2.escape_then_free", key, f.where(fr), bad is None,
                     "every location that received `%s` is reset before free()" % p["n"] if bad is None else
-                    "`%s` was stored into %s (line %s) and is freed while that location still holds it" % (p["n"], bad[1], bad[0]["l"]))
+                    "`%s` was stored into %s (line %s%s) and is freed while that location still holds it" %
+                    (p["n"], bad[1], bad[0]["l"], ": " + kept[bad[0]["i"]] if bad[0]["i"] in kept else ""))
     res.info["r2_free_sites_with_escapes"] = n
+    res.info["r2_free_sites_of_locals_examined"] = nfree
+    res.info["r2_keeping_parameters"] = len(st)
+    if f_floor:
+        res.floor("R2.escape_then_free", "free() sites of local pointers examined", nfree, 15)
+        res.floor("R2.escape_then_free", "parameters that some function keeps (fixed point)", len(st), 40)
 
 
 def r5_recursion_marks(prog, res):
@@ -495,6 +515,18 @@ def r6_lookup_results(prog, res, reachable, nn, rule="R6.lookup_result_tested", 
     res.floor(rule, "locals that receive a possibly-NULL lookup result in the front end", n, floor)
 
 
+def selftest(res):
+    import selftest as st
+    import report
+    prog = st.load(PID, ["src/express/keep.c"])
+    sub = report.Result(PID)
+    r2_escape_then_free(prog, sub)
+    st.expect(res, "C06 R2", sub, [
+        "R2|src/express/keep.c|find_schema_bad|free(copy)",
+        "R2|src/express/keep.c|define_bad|free(copy)",
+    ], expected_ok_min=1)
+
+
 def run(prog, res, tier):
     reachable, keys = memsafe.reach(prog, CFG)
     res.info["reachable_functions"] = len(reachable)
@@ -502,7 +534,7 @@ def run(prog, res, tier):
     res.floor("E2.bounded_write", "index/by-reference stores into fixed arrays", ns.get("index", 0), 50)
     res.floor("E2.bounded_write", "library writers into fixed arrays", ns.get("lib", 0), 100)
     r1_cursors(prog, res)
-    r2_escape_then_free(prog, res)
+    r2_escape_then_free(prog, res, f_floor=True)
     r5_recursion_marks(prog, res)
     r5b_stamp_stable(prog, res)
     nn = Nullness(prog)
